@@ -13,6 +13,7 @@
 From Coq Require Import List NArith ZArith Bool Arith Lia.
 From RecordUpdate Require Import RecordUpdate.
 From JV Require Import Bytes Msg SrvModel SrvLemmas SrvBasics SrvC10 SrvC08 SrvC08b SrvC08c SrvC08q SrvC08r SrvC08s SrvC08u SrvC08y SrvC08n SrvC08w SrvC08v SrvC08m.
+From JV Require Import SrvEventually.
 Import ListNotations.
 
 (** 1. No interleaving makes the process panic: none of the model's crash outcomes (CrNilChannel = deliver
@@ -378,6 +379,49 @@ Theorem c08_eventually_terminates : forall c s, reach c s -> forall pick : state
      wg s' = 0 /\ waits s' = 0 /\ all_done s').
 Proof. exact eventually_terminates. Qed.
 Print Assumptions c08_eventually_terminates.
+
+(* 'eventually' as a predicate of the last states of the maximal release-only runs (srv/SrvEventually.v): P holds in the
+   last state of every release-only run from s that cannot be extended (= that has reached a quiescent state); such
+   runs exist, and none is longer than mu_rel s *)
+Theorem c08_eventually_spec : forall s P, eventually s P <->
+  (exists tr s' oss, run s tr = Some (s', oss) /\ Forall (fun l => is_rel l = true) tr /\ length tr <= mu_rel s /\
+     quiescent s' = true) /\
+  (forall tr s' oss, run s tr = Some (s', oss) -> Forall (fun l => is_rel l = true) tr ->
+     length tr <= mu_rel s /\ (quiescent s' = true -> P tr s' oss)).
+Proof. exact eventually_spec. Qed.
+Print Assumptions c08_eventually_spec.
+
+Theorem c08_quiescent_iff_maximal : forall s, quiescent s = true <-> forall l, is_rel l = true -> step s l = None.
+Proof. exact quiescent_iff_maximal. Qed.
+Print Assumptions c08_quiescent_iff_maximal.
+
+(* every pending WaitStatus call eventually returns, with the status of the first cause.  [s0 -l-> s1] is the window
+   that stopped the server, tr1 any later history without a restart, leading to s; from there the goroutines run on
+   their own.  In the last state s' of every maximal release-only run: the server is still stopped with the cause k of
+   the stopping window; every WaitStatus return of the run reports k; returns of the run + calls still pending =
+   calls pending in s; and once no handler is executing and the reader's Recv has returned (no assumption is needed
+   on a channel whose Close unblocks Recv), every pending call has returned and every goroutine has exited.
+   count_waitret os = the number of OWaitRet observations in os. *)
+Theorem c08_waits_returned_spec : forall c s0 l s tr s' oss, c08_waits_returned c s0 l s tr s' oss <->
+  exists k, stop_cause s0 l k /\ stop_err s' = Some k /\ running s' = false /\
+    (forall os r, In os oss -> In (OWaitRet r) os -> r = Some k) /\
+    count_waitret (concat oss) + waits s' = waits s /\
+    ((forall j t, nth_error (tasks s') j = Some t -> t_st t <> TRunning) ->
+     (rd s' = RExited \/ rd s' = RNone \/ cf_unblock c = true) -> 0 < cf_K c ->
+     waits s' = 0 /\ count_waitret (concat oss) = waits s /\ wg s' = 0 /\ all_done s').
+Proof. exact (fun c s0 l s tr s' oss => conj (fun x => x) (fun x => x)). Qed.
+Print Assumptions c08_waits_returned_spec.
+
+Theorem c08_count_waitret_spec : forall os,
+  count_waitret os = length (filter (fun o => match o with OWaitRet _ => true | _ => false end) os).
+Proof. exact count_waitret_spec. Qed.
+Print Assumptions c08_count_waitret_spec.
+
+Theorem c08_waitstatus_eventually_returns : forall c s0 l s1 os1 tr1 s oss1, reach c s0 -> step s0 l = Some (s1, os1) ->
+  running s0 = true -> running s1 = false -> run s1 tr1 = Some (s, oss1) -> ~ In LStart tr1 ->
+  eventually s (c08_waits_returned c s0 l s).
+Proof. exact SrvEventually.c08_waitstatus_eventually_returns. Qed.
+Print Assumptions c08_waitstatus_eventually_returns.
 
 (* the measure and the release labels, spelled out; every label [enabled_rel] offers is a release label *)
 Theorem c08_mu_rel_spec : forall s, mu_rel s =
